@@ -170,8 +170,11 @@ pub fn c13(ctx: &mut Ctx) -> (u64, String) {
 pub struct PairSys {
     layout: usize,
     mode: HandleControl,
-    /// (set2 bytes, set1 bytes)
-    alphabet: Vec<(Vec<u8>, Vec<u8>)>,
+    /// (set2 bytes, set1 bytes, compare outputs?) - sequences that decode to a key in Set 2 are compared;
+    /// the remaining translatable sequences ("noise": codes one set or the other does not define, e.g. the
+    /// fake-shift E0 F0 59 -> E0 B6) are fed to both keyboards without comparing their own results, so that
+    /// whatever they leave behind is observed by the key sequences that follow
+    alphabet: Vec<(Vec<u8>, Vec<u8>, bool)>,
 }
 
 fn type_bytes<S: ScancodeSet>(k: &mut Keyboard<Wrap, S>, bytes: &[u8]) -> String {
@@ -191,7 +194,7 @@ fn type_bytes<S: ScancodeSet>(k: &mut Keyboard<Wrap, S>, bytes: &[u8]) -> String
 
 impl Sys for PairSys {
     type S = (Rid<Keyboard<Wrap, ScancodeSet2>>, Rid<Keyboard<Wrap, ScancodeSet1>>);
-    type A = (Vec<u8>, Vec<u8>);
+    type A = (Vec<u8>, Vec<u8>, bool);
     type O = ();
     fn init(&self) -> Self::S {
         (
@@ -199,15 +202,15 @@ impl Sys for PairSys {
             Rid(Keyboard::new(ScancodeSet1::new(), Wrap(self.layout as u8), self.mode)),
         )
     }
-    fn alphabet(&self) -> &[(Vec<u8>, Vec<u8>)] {
+    fn alphabet(&self) -> &[(Vec<u8>, Vec<u8>, bool)] {
         &self.alphabet
     }
-    fn step(&self, s: &Self::S, a: &(Vec<u8>, Vec<u8>)) -> Step<Self::S, ()> {
+    fn step(&self, s: &Self::S, a: &(Vec<u8>, Vec<u8>, bool)) -> Step<Self::S, ()> {
         let mut k2 = s.0 .0.clone();
         let mut k1 = s.1 .0.clone();
         let o2 = catch_unwind(AssertUnwindSafe(|| type_bytes(&mut k2, &a.0))).unwrap_or_else(|_| "PANIC".into());
         let o1 = catch_unwind(AssertUnwindSafe(|| type_bytes(&mut k1, &a.1))).unwrap_or_else(|_| "PANIC".into());
-        let bad = if o1 != o2 {
+        let bad = if a.2 && o1 != o2 {
             Some(Bad {
                 key: format!("xlate/e2e/{}/{}/{}", LAYOUT_NAMES[self.layout], mode_name(self.mode), hex(&a.0).replace(' ', "")),
                 text: format!(
@@ -230,9 +233,16 @@ fn pair_bfs(ctx: &mut Ctx, layout: usize, mode: HandleControl) {
     for (table, c) in translatable_presses() {
         for brk in [false, true] {
             let (s2, s1) = xlate_seq(table, brk, c).unwrap();
-            if let Ok(Ok(Some(e))) = run(ScancodeSet2::new(), &s2) {
-                if e.state != KeyState::SingleShot {
-                    alphabet.push((s2, s1));
+            match run(ScancodeSet2::new(), &s2) {
+                Ok(Ok(Some(e))) if e.state != KeyState::SingleShot => alphabet.push((s2, s1, true)),
+                Ok(Ok(Some(_))) => {}
+                _ => {
+                    // noise: only if the translated sequence is a complete sequence by the Set 1 grammar
+                    // (a translated break byte equal to E0/E1 would be a prefix there)
+                    let last = *s1.last().unwrap();
+                    if !(table == PLAIN && (last == 0xE0 || last == 0xE1)) {
+                        alphabet.push((s2, s1, false));
+                    }
                 }
             }
         }
@@ -261,7 +271,7 @@ fn pair_bfs(ctx: &mut Ctx, layout: usize, mode: HandleControl) {
     ctx.evaluations += g.edges;
     ctx.part(
         &format!("bfs:pair Keyboard<{},Set2> / Keyboard<{},Set1> mode {}", LAYOUT_NAMES[layout], LAYOUT_NAMES[layout], mode_name(mode)),
-        json!({"engine": "A (own BFS + stateright cross-check)", "key_sequences": sys.alphabet.len(), "product_states": g.states.len(), "transitions": g.edges, "max_depth": g.max_depth,
+        json!({"engine": "A (own BFS + stateright cross-check)", "key_sequences": sys.alphabet.iter().filter(|a| a.2).count(), "noise_sequences": sys.alphabet.iter().filter(|a| !a.2).count(), "product_states": g.states.len(), "transitions": g.edges, "max_depth": g.max_depth,
                "stateright_unique_states": sr.unique_states, "violating_edges": g.bads.len()}),
     );
     ctx.expect(g.states.len() >= 512, "pair BFS reaches all 512 modifier states");
